@@ -65,6 +65,7 @@ func alphabetC06() []m.Op {
 		{K: "createColl", Coll: "a"}, {K: "createColl", Coll: "ab"}, {K: "dropColl", Coll: "a"}, {K: "dropColl", Coll: "ab"},
 		ins("a", doc(u1, "x", int64(1), "xy", int64(2))), ins("a", doc(u2, "x", "s")), ins("ab", doc(u1, "x", int64(1))),
 		ins("a", doc(u2, "x", int64(1)), doc(u1, "xy", "q")),
+		ins("a", doc(u3, "x", int64(1)), doc(u3, "x", int64(2), "xy", int64(3))), // the same _id twice in one batch
 		updID("a", u1, "copy", "x", int64(2)), updID("a", u1, "inplace", "x", "s", "xy", nil),
 		{K: "update", Q: qOn("a", m.Leaf("eq", "x", int64(1))), Set: map[string]interface{}{"x": int64(5)}},
 		{K: "updateFunc", Q: qOn("a", nil), Upd: &m.Updater{Set: map[string]interface{}{"xy": int64(1)}, Style: "inplace"}},
@@ -98,7 +99,7 @@ func init() {
 	})
 	register("C14", "model_checking", func(run *ev.Run, tier string) string {
 		tags := own("catalog-index", "err", "indexquery", "rawkeys", "find", "error-changed-state")
-		runSS(run, tier, []string{"indexes"}, both, "", tags, nil)
+		runSS(run, tier, []string{"indexes", "consistency"}, both, "", tags, nil)
 		eng.BulkSweep(&eng.BulkConfig{Backends: both, Sizes: sizesUpTo(map[string]int{"quick": 72, "thorough": 300}[tier]), Pads: []int{0}, IndexSets: [][]string{{"x"}, {"x", "xy"}},
 			Ops: eng.BulkOpsNamed("create-index-on-existing", "create-index-prefix-sibling", "drop-index-x")}, run, tags)
 		run.Set("distinct_nontrivial", run.Get("states")+int64(run.DistinctCount("cases")))
